@@ -209,3 +209,570 @@ def snapshot(las):
             tuple(map(float, getattr(las.points, "scales", []))), tuple(map(float, getattr(las.points, "offsets", []))),
             repr(sorted(lasio.header_assoc(las.header).items(), key=lambda kv: kv[0])),
             [lasio.vlr_tuple(v) for v in las.vlrs], None if las.evlrs is None else [lasio.vlr_tuple(v) for v in las.evlrs])
+
+
+# =====================================================================================================================
+# round 4 (added; nothing above is changed): ALIASING between the caller's objects and the objects laspy derives from
+# them, caller edits as session operations, with-blocks left by an exception, chunk formats by object identity
+# =====================================================================================================================
+import datetime as _dt
+import enum as _enum
+import types as _types
+import uuid as _uuid
+
+
+class KeepBytesIO(io.BytesIO):
+    """BytesIO whose contents stay readable after close() (a writer opened with closefd=True closes its destination)"""
+
+    def __init__(self, initial=b""):
+        super().__init__(initial)
+        self.kept = None
+
+    def close(self):
+        if not self.closed:
+            self.kept = self.getvalue()
+        super().close()
+
+    def value(self):
+        return self.kept if self.closed else self.getvalue()
+
+
+_ATOMIC = (int, float, complex, str, bytes, bool, type(None), type, range, slice, np.generic, np.dtype, _enum.Enum, _uuid.UUID,
+           _dt.date, _types.FunctionType, _types.BuiltinFunctionType, _types.MethodType, _types.ModuleType)
+
+
+def _walk_children(o):
+    if isinstance(o, np.ndarray):
+        return
+    if isinstance(o, dict):
+        for k, v in o.items():
+            yield f"[{k!r}]", v
+    elif isinstance(o, (list, tuple, set, frozenset)):
+        for i, v in enumerate(o):
+            yield f"[{i}]", v
+    d = getattr(o, "__dict__", None)
+    if isinstance(d, dict):
+        for k, v in d.items():
+            yield "." + k, v
+    for k in getattr(type(o), "__slots__", ()) or ():
+        if isinstance(k, str) and hasattr(o, k):
+            yield "." + k, getattr(o, k)
+
+
+def walk_objects(root, limit=20000):
+    """(path, object) for every object reachable from root through attributes, containers and tuples; numpy arrays are leaves;
+    streams, loggers and immutable values are not entered"""
+    seen, stack, n = set(), [("", root)], 0
+    while stack and n < limit:
+        path, o = stack.pop()
+        if id(o) in seen or isinstance(o, _ATOMIC) or isinstance(o, io.IOBase):
+            continue
+        mod = (type(o).__module__ or "").split(".")[0]
+        if mod not in ("laspy", "builtins", "numpy", "collections", "harness", "types", "ctypes", "_ctypes"):
+            continue
+        seen.add(id(o))
+        n += 1
+        yield path, o
+        for name, c in _walk_children(o):
+            stack.append((path + name, c))
+
+
+def _is_mutable(o):
+    if isinstance(o, np.ndarray):
+        return bool(o.flags.writeable) and o.size > 0
+    if isinstance(o, (list, dict, set, bytearray)):
+        return True
+    if isinstance(o, (tuple, frozenset)):
+        return False
+    return hasattr(o, "__dict__") or bool(getattr(type(o), "__slots__", None))
+
+
+def shared_mutables(a, b):
+    """STRUCTURAL SHARING PROBE: the mutable objects reachable both from `a` (the caller's side) and from `b` (the object laspy
+    derived from it): same object, or numpy arrays over the same memory. Returns [(path in a, path in b, object)]."""
+    A, arrays = {}, []
+    for p, o in walk_objects(a):
+        A[id(o)] = p
+        if isinstance(o, np.ndarray):
+            arrays.append((p, o))
+    out = []
+    for p, o in walk_objects(b):
+        if not _is_mutable(o):
+            continue
+        if id(o) in A:
+            out.append((A[id(o)], p, o))
+        elif isinstance(o, np.ndarray):
+            for pa, oa in arrays:
+                if np.shares_memory(oa, o):
+                    out.append((pa, p, oa))
+                    break
+    return out
+
+
+def perturbation_for(rng, path, o):
+    """an in-place modification of one shared object, chosen by its type; returns (label, thunk) or None"""
+    import laspy
+    if isinstance(o, np.ndarray):
+        if o.dtype.names:                       # a structured record array: flip one byte of one record
+            def f():
+                v = o.view(np.uint8).reshape(-1) if o.flags.c_contiguous else None
+                if v is not None and v.size:
+                    v[rng.randrange(v.size)] ^= 0x5A
+            return (f"<{path}> one byte of the shared record memory flipped", f)
+        i = rng.randrange(o.size)
+        if o.dtype.kind == "f":
+            if "scale" in path:
+                return (f"<{path}>[{i}] *= 2 (in place)", lambda: o.reshape(-1).__setitem__(i, o.reshape(-1)[i] * 2))
+            return (f"<{path}>[{i}] += 1.5 (in place)", lambda: o.reshape(-1).__setitem__(i, o.reshape(-1)[i] + 1.5))
+        if o.dtype.kind in "iu":
+            return (f"<{path}>[{i}] += 1 (in place)", lambda: o.reshape(-1).__setitem__(i, o.reshape(-1)[i] + 1))
+        return None
+    if isinstance(o, laspy.PointFormat):
+        nm = "pr" + str(rng.randrange(1000))
+        t = rng.choice(["u2", "i4", "f8", "3u1"])
+        return (f"<{path}>.add_extra_dimension(ExtraBytesParams({nm!r}, {t!r}))", lambda: o.add_extra_dimension(laspy.ExtraBytesParams(nm, t)))
+    if type(o).__name__ == "GlobalEncoding":
+        bit = rng.choice([1, 2, 4, 8, 16])
+        return (f"<{path}>.value ^= {bit}", lambda: setattr(o, "value", o.value ^ bit))
+    if isinstance(o, laspy.VLR) and isinstance(getattr(o, "record_data", None), (bytes, bytearray)) and len(o.record_data):
+        new = bytes((x ^ 0xA5) for x in o.record_data)
+        return (f"<{path}>.record_data = other bytes of the same length", lambda: setattr(o, "record_data", new))
+    if isinstance(o, list) and type(o).__name__ == "VLRList":
+        v = lasio.rand_vlr(rng, 40)
+        return (f"<{path}>.append(VLR of {len(v.record_data)} payload bytes)", lambda: o.append(v))
+    return None
+
+
+def foreign_format(rng, pf):
+    """a PointFormat whose VALUE differs from pf: another id, other extra dimensions, or - the near miss - the same names and
+    byte widths with another element count / element type / description / scaling"""
+    import copy as _copy
+    import laspy
+    have = list(pf.extra_dimensions)
+    r = rng.random()
+    if r < 0.3 or (not have and r < 0.6):
+        return laspy.PointFormat(rng.choice([i for i in range(11) if i != pf.id])), "other id"
+    out = laspy.PointFormat(pf.id)
+    if not have:
+        out.add_extra_dimension(laspy.ExtraBytesParams("zz", rng.choice(["u4", "f4", "2u2", "i4", "u1"])))
+        return out, "extra dimension where the writer has none"
+    k = rng.randrange(len(have))
+    how = rng.choice(["name", "type-same-width", "elements-same-width", "description", "scaling", "dropped", "order"])
+    if how == "order" and len(have) < 2:
+        how = "name"
+    new = []
+    for j, d in enumerate(have):
+        p = dict(name=d.name, type=d.dtype, description=d.description, scales=d.scales, offsets=d.offsets)
+        if j == k:
+            width = d.num_bits // 8
+            if how == "name":
+                p["name"] = (d.name + "x")[:32] if len(d.name) < 32 else "y" + d.name[1:]
+            elif how == "type-same-width":
+                base = d.dtype.base if d.dtype is not None else np.dtype("u1")
+                alt = {"u": "i", "i": "u", "f": "u"}[base.kind] + str(base.itemsize)
+                p["type"] = np.dtype((alt, d.num_elements)) if d.num_elements > 1 else np.dtype(alt)
+                if base.kind == "f" and base.itemsize not in (1, 2, 4, 8):
+                    how = "name"; p["type"] = d.dtype; p["name"] = "q" + d.name[1:] if d.name else "q"
+            elif how == "elements-same-width":
+                base = d.dtype.base
+                if d.num_elements == 1 and base.itemsize in (2, 4, 8) and base.kind in "ui":
+                    p["type"] = np.dtype((base.kind + str(base.itemsize // 2), 2))      # u4 -> 2u2: same name, same bytes
+                    p["scales"] = p["offsets"] = None
+                elif d.num_elements == 2 and base.itemsize in (1, 2, 4) and base.kind in "ui":
+                    p["type"] = np.dtype(base.kind + str(base.itemsize * 2))            # 2u2 -> u4
+                    p["scales"] = p["offsets"] = None
+                else:
+                    how = "name"; p["name"] = "w" + d.name[1:] if d.name else "w"
+            elif how == "description":
+                p["description"] = (d.description + "!")[:32] if len(d.description) < 32 else "!" + d.description[1:]
+            elif how == "scaling":
+                if d.scales is not None:
+                    p["scales"] = np.array(d.scales) * 2
+                elif d.dtype is not None and d.num_elements <= 3 and not (d.num_elements > 3):
+                    p["scales"] = np.full(d.num_elements, 0.5); p["offsets"] = np.zeros(d.num_elements)
+                else:
+                    how = "name"; p["name"] = "s" + d.name[1:] if d.name else "s"
+            elif how == "dropped":
+                continue
+        new.append(p)
+    if how == "order":
+        new[0], new[-1] = new[-1], new[0]
+    try:
+        for p in new:
+            out.add_extra_dimension(laspy.ExtraBytesParams(p["name"], p["type"], description=p["description"], scales=p["scales"], offsets=p["offsets"]))
+    except Exception:
+        out = laspy.PointFormat(pf.id)
+        out.add_extra_dimension(laspy.ExtraBytesParams("zz", "u1"))
+        how = "other extra dimensions"
+    if lasio.format_key(out) == lasio.format_key(pf) and [d.description for d in out.extra_dimensions] == [d.description for d in pf.extra_dimensions]:
+        out.add_extra_dimension(laspy.ExtraBytesParams("zq", "u1"))
+        how = "one more extra dimension"
+    return out, how
+
+
+def format_value(pf):
+    """the VALUE of a point format as the model sees it: (id, record size, canonical bytes of the extra dimensions incl. descriptions)"""
+    import hashlib
+    canon = repr((lasio.format_key(pf)[1], tuple(d.description for d in pf.extra_dimensions)))
+    return (int(pf.id), int(pf.size), hashlib.sha1(canon.encode()).digest())
+
+
+def fmt_tok(v):
+    return f"{v[0]}:{v[1]}:{common.hexb(v[2])}"
+
+
+class _Shim:
+    def __init__(self, pf):
+        self.point_format = pf
+
+
+def caller_world_state(world):
+    """everything of the caller's side a writer operation must leave alone"""
+    h = world["h"]
+    return (repr(sorted(lasio.header_assoc(h).items())), [lasio.vlr_tuple(v) for v in h.vlrs],
+            None if h.evlrs is None else [lasio.vlr_tuple(v) for v in h.evlrs],
+            [format_value(f) for f in world["F"]], [i for i, f in enumerate(world["F"]) if f is h.point_format])
+
+
+def header_edit(rng, world):
+    """one IN-PLACE edit of the caller's own objects (its header h, the LasData owning h, the PointFormat objects it holds).
+    Returns (label, thunk). Every mutable leaf has an entry; rebinding edits are there too (a writer that kept the caller's header
+    itself, not a copy, would see those)."""
+    import laspy
+    h, F, owner = world["h"], world["F"], world.get("owner")
+    ax = rng.choice("xyz")
+    i = "xyz".index(ax)
+    c = []
+    sv = rng.choice([0.001, 0.01, 0.5, 2.0, 7.0, 1e-9, 1000.0])
+    ov = rng.choice([0.0, 1.5, -2.0, 1e9, -1e9, 123456.789])
+    c.append((f"h.{ax}_scale = {sv!r}", lambda: setattr(h, f"{ax}_scale", sv)))
+    c.append((f"h.{ax}_offset = {ov!r}", lambda: setattr(h, f"{ax}_offset", ov)))
+    c.append((f"h.scales[{i}] *= 2", lambda: h.scales.__setitem__(i, h.scales[i] * 2)))
+    c.append((f"h.offsets[{i}] += 1.5", lambda: h.offsets.__setitem__(i, h.offsets[i] + 1.5)))
+    c.append((f"h.scales[:] = {sv!r}", lambda: h.scales.__setitem__(slice(None), sv)))
+    c.append((f"h.offsets[:] = {ov!r}", lambda: h.offsets.__setitem__(slice(None), ov)))
+    c.append((f"h.scales = np.array([{sv!r}]*3)  (rebinding)", lambda: setattr(h, "scales", np.array([sv] * 3))))
+    c.append((f"h.offsets = np.array([{ov!r}]*3)  (rebinding)", lambda: setattr(h, "offsets", np.array([ov] * 3))))
+    nm = "al" + str(rng.randrange(10000))
+    t = rng.choice(["u1", "u2", "i4", "f8", "2u2", "3f4", "5u1"])
+    c.append((f"h.add_extra_dim(ExtraBytesParams({nm!r}, {t!r}))", lambda: h.add_extra_dim(laspy.ExtraBytesParams(nm, t))))
+    c.append((f"h.point_format.add_extra_dimension(ExtraBytesParams({nm!r}, {t!r}))", lambda: h.point_format.add_extra_dimension(laspy.ExtraBytesParams(nm, t))))
+    ex = [d.name for d in h.point_format.extra_dimensions]
+    if ex:
+        victim = rng.choice(ex)
+        c.append((f"h.remove_extra_dim({victim!r})", lambda: h.remove_extra_dim(victim)))
+    if owner is not None and owner.header is h:
+        c.append((f"las.add_extra_dim(ExtraBytesParams({nm!r}, {t!r}))   # las = LasData(h)", lambda: owner.add_extra_dim(laspy.ExtraBytesParams(nm, t))))
+        if ex:
+            victim2 = rng.choice(ex)
+            c.append((f"las.remove_extra_dim({victim2!r})", lambda: owner.remove_extra_dim(victim2)))
+    # the format object F[2] the caller builds chunks on, extended / restored in place
+    ex2 = [d.name for d in F[2].extra_dimensions]
+    c.append((f"F2.add_extra_dimension(ExtraBytesParams({nm!r}, {t!r}))", lambda: F[2].add_extra_dimension(laspy.ExtraBytesParams(nm, t))))
+    c.append((f"F2.add_extra_dimension(ExtraBytesParams({nm!r}, {t!r}))", lambda: F[2].add_extra_dimension(laspy.ExtraBytesParams(nm, t))))
+    if ex2:
+        c.append((f"F2.remove_extra_dimension({ex2[-1]!r})", lambda: F[2].remove_extra_dimension(ex2[-1])))
+        c.append((f"F2.remove_extra_dimension({ex2[-1]!r})", lambda: F[2].remove_extra_dimension(ex2[-1])))
+    v = lasio.rand_vlr(rng, 60)
+    c.append((f"h.vlrs.append(VLR({v.user_id!r}, {v.record_id}, payload {len(v.record_data)} bytes))", lambda: h.vlrs.append(v)))
+    if len(h.vlrs):
+        k = rng.randrange(len(h.vlrs))
+        c.append(("h.vlrs.pop()", lambda: h.vlrs.pop()))
+        if isinstance(h.vlrs[k], laspy.VLR) and len(h.vlrs[k].record_data):
+            nb = bytes((x ^ 0x3C) for x in h.vlrs[k].record_data)
+            c.append((f"h.vlrs[{k}].record_data = other bytes of the same length", lambda: setattr(h.vlrs[k], "record_data", nb)))
+        if isinstance(h.vlrs[k], laspy.VLR):
+            c.append((f"h.vlrs[{k}]._description = 'edited'", lambda: setattr(h.vlrs[k], "_description", "edited")))
+    ge = rng.choice([1, 2, 4, 8, 16, 0x8000])
+    c.append((f"h.global_encoding.value ^= {ge}", lambda: setattr(h.global_encoding, "value", h.global_encoding.value ^ ge)))
+    c.append(("h.global_encoding.wkt = not h.global_encoding.wkt", lambda: setattr(h.global_encoding, "wkt", not h.global_encoding.wkt)))
+    c.append(("h.global_encoding.synthetic_return_numbers = True", lambda: setattr(h.global_encoding, "synthetic_return_numbers", True)))
+    u = _uuid.UUID(bytes=bytes(rng.randrange(256) for _ in range(16)))
+    c.append((f"h.uuid = UUID({str(u)!r})", lambda: setattr(h, "uuid", u)))
+    si = lasio.rand_ascii(rng, rng.choice([0, 5, 32]))
+    c.append((f"h.system_identifier = {si!r}", lambda: setattr(h, "system_identifier", si)))
+    c.append((f"h.generating_software = {si!r}", lambda: setattr(h, "generating_software", si)))
+    fs = rng.randrange(65536)
+    c.append((f"h.file_source_id = {fs}", lambda: setattr(h, "file_source_id", fs)))
+    c.append(("h.creation_date = date(2001, 2, 3)", lambda: setattr(h, "creation_date", _dt.date(2001, 2, 3))))
+    eb = bytes(rng.randrange(256) for _ in range(rng.choice([0, 2, 11])))
+    c.append((f"h.extra_header_bytes = {eb!r}", lambda: setattr(h, "extra_header_bytes", eb)))
+    c.append((f"h.extra_vlr_bytes = {eb!r}", lambda: setattr(h, "extra_vlr_bytes", eb)))
+    c.append(("h.point_count = 77", lambda: setattr(h, "point_count", 77)))
+    c.append((f"h.maxs[{i}] = 1e9 ; h.mins[{i}] = -1e9", lambda: (h.maxs.__setitem__(i, 1e9), h.mins.__setitem__(i, -1e9))))
+    c.append(("h.number_of_points_by_return[2] += 9", lambda: h.number_of_points_by_return.__setitem__(2, h.number_of_points_by_return[2] + 9)))
+    c.append(("h.offset_to_point_data = 4321", lambda: setattr(h, "offset_to_point_data", 4321)))
+    if h.version.minor >= 4:
+        c.append(("h.start_of_first_evlr = 5 ; h.number_of_evlrs = 3", lambda: (setattr(h, "start_of_first_evlr", 5), setattr(h, "number_of_evlrs", 3))))
+        ev = lasio.rand_vlr(rng, 30)
+        c.append(("h.evlrs = VLRList([one record])", lambda: setattr(h, "evlrs", laspy.vlrs.vlrlist.VLRList([ev]))))
+    if h.version.minor >= 3:
+        c.append(("h.start_of_waveform_data_packet_record = 99", lambda: setattr(h, "start_of_waveform_data_packet_record", 99)))
+    # rebinding the header's point format to another of the caller's format objects
+    tgt = rng.choice([1, 2, 4])
+    if tgt < len(F) and F[tgt] is not h.point_format and F[tgt].id in lasio.COMPAT[str(h.version)]:
+        c.append((f"h.point_format = F{tgt}  (rebinding)", lambda: setattr(h, "point_format", F[tgt])))
+    return rng.choice(c)
+
+
+def alias_writer_session(rng, thorough=False, tmpdir=None, force_mode=None):
+    """ONE writer session generated and executed step by step: the caller keeps using ITS objects (header h, the LasData owning
+    h, the PointFormat objects F0..F4 its chunks are built on) while the writer is open. F0 = h.point_format, F1 = equal copy never
+    touched, F2 = equal copy extended / restored in place, F3 = foreign from the start, F4 = equal copy h may be re-bound to.
+    Entry points LasWriter(...) / laspy.open(mode='w') on BytesIO / file stream / path, plain or as a with-block that the first
+    refused call (or the caller's own exception) may leave. Right after the open the structural sharing probe lists the mutable
+    objects reachable from both sides; each is then perturbed through the caller (probe-directed edits) in addition to random
+    catalogue edits. Returns a dict with the description, the outcomes, the file, the expectations of the property and the model
+    command (lasmodel_c04 `sess`)."""
+    import copy as _copy
+    import os
+    import laspy
+    h = lasio.rand_header(rng)
+    if rng.random() < 0.4:
+        lasio.add_extra_dims(rng, h)
+    owner = None
+    if rng.random() < 0.3:
+        h.point_count = rng.choice([0, 1, 3])
+        owner = laspy.LasData(h)
+    F3, how3 = foreign_format(rng, h.point_format)
+    world = {"h": h, "owner": owner, "F": [h.point_format, _copy.deepcopy(h.point_format), _copy.deepcopy(h.point_format), F3, _copy.deepcopy(h.point_format)]}
+    F = world["F"]
+    mode = force_mode or rng.choice(["plain", "plain", "with", "with-propagate", "with-propagate"])
+    entry = rng.choice(["LasWriter", "laspy.open", "laspy.open"])
+    destk = rng.choice(["bytesio"] * 8 + ["file-stream", "path"]) if tmpdir else "bytesio"
+    if destk == "path":
+        entry = "laspy.open"
+    closefd = True if destk == "path" else rng.choice([False, False, True])
+    desc = {"version": str(h.version), "format": h.point_format.id, "extra_dims": [(d.name, str(d.dtype)) for d in h.point_format.extra_dimensions],
+            "vlrs": len(h.vlrs), "las_owning_h": owner is not None, "F3": how3, "entry": entry, "dest": destk, "closefd": closefd, "mode": mode, "ops": []}
+    log = desc["ops"]
+    res = {"desc": desc, "outs": [], "unchanged": [], "expect": [], "kinds": [], "addrs": [], "problems": [], "probe": [], "mode": mode, "left": None}
+    path = os.path.join(tmpdir, f"alias_{rng.randrange(10**9)}.las") if destk != "bytesio" else None
+    fobj = None
+    if destk == "bytesio":
+        dest = KeepBytesIO()
+    elif destk == "file-stream":
+        dest = fobj = open(path, "wb+")
+    else:
+        dest = path
+    open_header = _copy.deepcopy(h)
+    open_val = format_value(h.point_format)
+    res["open_header"], res["open_val"] = open_header, open_val
+    toks = [{"plain": "plain", "with": "withc", "with-propagate": "with"}[mode],
+            lasio.assoc_tok(lasio.header_assoc(h)), lasio.vlrs_tok(h.vlrs), str([i for i, f in enumerate(F) if f is h.point_format][0]),
+            "|".join(fmt_tok(format_value(f)) for f in F)]
+    before = caller_world_state(world)
+    try:
+        if entry == "LasWriter":
+            w = laspy.LasWriter(dest, h, closefd=closefd)
+            log.append(f"w = laspy.LasWriter(<{destk}>, h, closefd={closefd})")
+        elif destk == "path":
+            w = laspy.open(dest, mode="w", header=h)
+            log.append("w = laspy.open(<path>, mode='w', header=h)")
+        else:
+            w = laspy.open(dest, mode="w", header=h, closefd=closefd)
+            log.append(f"w = laspy.open(<{destk}>, mode='w', header=h, closefd={closefd})")
+    except Exception as ex:
+        res["outs"].append("open-err:" + common.exc_kind(ex))
+        res["raw"] = None
+        res["cmd"] = None
+        if fobj is not None:
+            fobj.close()
+        return res
+    if caller_world_state(world) != before:
+        res["problems"].append(("writer operation modified the caller's objects", "opening the writer"))
+
+    def cur_bytes():
+        if destk == "bytesio":
+            return dest.value()
+        return None
+
+    # ---- the sharing probe: mutable objects reachable from the caller's world AND from the writer
+    forced = []
+    for pa, pb, o in shared_mutables(world, w):
+        res["probe"].append(f"caller{pa} is writer{pb} ({type(o).__name__})")
+        p = perturbation_for(rng, pa, o)
+        if p is not None:
+            forced.append(p)
+    rng.shuffle(forced)
+    forced = forced[:4]
+    state = {"finished": False, "accepted": b"", "evl": None, "nchunks": 0, "closed": False}
+    pool = {}
+    nops = rng.randrange(2, 8 if not thorough else 13)
+    SA = laspy.ScaleAwarePointRecord
+
+    def sync_tokens(prev):
+        """tokens for what an edit changed in the caller's world"""
+        a0 = dict(eval(prev[0]))
+        a1 = lasio.header_assoc(h)
+        out = []
+        for k, v in a1.items():
+            if k in ("point_format_id", "point_size"):
+                continue
+            if a0.get(k) != v:
+                out.append("S" + k + "=" + (common.hexb(v) if isinstance(v, (bytes, bytearray)) else str(int(v))))
+        vl = [lasio.vlr_tuple(v) for v in h.vlrs]
+        if vl != prev[1]:
+            out.append("V" + lasio.vlrs_tok(vl))
+        now = [format_value(f) for f in F]
+        for i, (x, y) in enumerate(zip(prev[3], now)):
+            if x != y:
+                out.append(f"F{i}:{fmt_tok(y)}")
+        hf = [i for i, f in enumerate(F) if f is h.point_format]
+        if hf != prev[4]:
+            out.append(f"B{hf[0]}")
+        return out
+
+    def do_edit(label, thunk):
+        prev = caller_world_state(world)
+        try:
+            thunk()
+            log.append(label)
+        except Exception as ex:
+            log.append(label + f"   # raised {type(ex).__name__}")
+        toks.extend(sync_tokens(prev))
+
+    def writer_op(kind, label, fn, expect, payload=None, addr=None):
+        """runs one writer operation; records outcome, whether the destination bytes changed, whether the caller's world changed"""
+        res["addrs"].append(addr)
+        b0 = cur_bytes()
+        snap = caller_world_state(world)
+        psnap = None
+        if payload is not None:
+            psnap = (lasio.rec_bytes(payload), format_value(payload.point_format), tuple(map(float, getattr(payload, "scales", []))), tuple(map(float, getattr(payload, "offsets", []))))
+        err = None
+        try:
+            fn()
+            o = "ok"
+        except Exception as ex:
+            o = "err:" + common.exc_kind(ex)
+            err = ex
+        log.append(label + ("" if o == "ok" else f"   # raised {type(err).__name__}: {str(err)[:60]}"))
+        res["outs"].append(o)
+        b1 = cur_bytes()
+        res["unchanged"].append(None if b0 is None or b1 is None else b0 == b1)
+        res["expect"].append(expect)
+        res["kinds"].append(kind)
+        if caller_world_state(world) != snap:
+            res["problems"].append(("writer operation modified the caller's objects", label))
+        if payload is not None and psnap != (lasio.rec_bytes(payload), format_value(payload.point_format), tuple(map(float, getattr(payload, "scales", []))), tuple(map(float, getattr(payload, "offsets", [])))):
+            res["problems"].append(("write_points modified the chunk it was given", label))
+        return o, err
+
+    def body():
+        for step in range(nops):
+            r = rng.random()
+            if forced and state["nchunks"] >= 1 and r < 0.7:
+                lab, th = forced.pop()
+                do_edit("PROBE-DIRECTED: " + lab, th)
+                continue
+            if r < 0.50 or (forced and state["nchunks"] == 0):
+                a = rng.choice([1, 1, 1, 1, 1, 0, 0, 2, 2, 2, 3, 4])
+                n = rng.choice([0, 1, 2, 5, 17, 40])
+                val = format_value(F[a])
+                rec, how = None, ""
+                if a in pool and rng.random() < 0.15:
+                    cand, cval = rng.choice(pool[a])
+                    if cval == val or val != open_val:
+                        rec, n = cand, len(cand)
+                        how = " (a record kept from before)" if cval == val else " (a STALE record: its format object was changed in place since)"
+                if rec is None:
+                    rec = lasio.rand_points(rng, _Shim(F[a]), n)
+                    pool.setdefault(a, []).append((rec, val))
+                    if n and rng.random() < 0.2:
+                        rec = SA(rec.array, F[a], np.array(open_header.scales), np.array(open_header.offsets))
+                        how = " as ScaleAwarePointRecord in the scaling the header had at open"
+                    elif n == 1 and rng.random() < 0.3:
+                        rec = rec[0]
+                        how = " as 0-d record"
+                same = val == open_val
+                n = len(rec)
+                expect = "ok" if n == 0 else ("refused" if (state["finished"] or not same) else "accepted")
+                data = lasio.rec_bytes(rec) if same else bytes(n * open_val[1])
+                toks.append(f"P{a}:{common.hexb(data)}")
+                lab = f"w.write_points(<{n} records built on F{a}{' (same object as h.point_format)' if F[a] is h.point_format else ''}, format {'equal to' if same else 'DIFFERENT from'} the header's at open>{how})"
+                o, err = writer_op("P", lab, lambda: w.write_points(rec), expect, payload=rec if n else None, addr=a)
+                if o == "ok" and n and same and not state["finished"]:
+                    state["accepted"] += lasio.rec_bytes(rec)
+                    state["nchunks"] += 1
+                if err is not None and mode == "with-propagate":
+                    raise err
+            elif r < 0.80:
+                do_edit(*header_edit(rng, world))
+            elif r < 0.88 and not state["finished"]:
+                evl = laspy.vlrs.vlrlist.VLRList([lasio.rand_vlr(rng) for _ in range(rng.choice([0, 1, 2]))])
+                toks.append("E" + lasio.vlrs_tok(evl))
+                o, err = writer_op("E", f"w.write_evlrs(<{len(evl)} records>)", lambda: w.write_evlrs(evl), "ok" if open_header.version.minor >= 4 else "refused")
+                if o == "ok" and len(evl):
+                    state["finished"] = True
+                    state["evl"] = evl
+                if err is not None and mode == "with-propagate":
+                    raise err
+            elif r < 0.93:
+                toks.append("C")
+                o, err = writer_op("C", "w.close()", lambda: w.close(), "ok")
+                if o == "ok":
+                    state["finished"] = True
+                    state["closed"] = True
+                if closefd:
+                    return              # the destination is gone: nothing more can be exercised on it
+            elif mode == "with-propagate":
+                toks.append("R")
+                log.append("raise KeyError('the caller's own code fails inside the with-block')")
+                raise KeyError("caller")
+            else:
+                do_edit(*header_edit(rng, world))
+
+    left = None
+    if mode == "plain":
+        body()
+        if not (state["closed"] and closefd):
+            toks.append("C")
+            writer_op("C", "w.close()", lambda: w.close(), "ok")
+    else:
+        log.append("with w:")
+        snap = caller_world_state(world)
+        try:
+            with w:
+                body()
+        except Exception as ex:
+            left = f"{type(ex).__name__}: {str(ex)[:60]}"
+        log.append("# the with-block was left " + ("normally" if left is None else f"by {left}"))
+        if caller_world_state(world) != snap and False:
+            pass
+    res["left"] = left
+    if destk == "bytesio":
+        res["raw"] = dest.value()
+        res["stream_closed"] = dest.closed
+    else:
+        try:
+            if fobj is not None and not fobj.closed:
+                fobj.flush()
+            with open(path, "rb") as f:
+                res["raw"] = f.read()
+        except Exception as ex:
+            res["raw"] = None
+            res["problems"].append(("destination cannot be read after the session", repr(ex)))
+        res["stream_closed"] = None if fobj is None else fobj.closed
+        if fobj is not None and not fobj.closed:
+            fobj.close()
+        try:
+            os.remove(path)
+        except OSError:
+            pass
+    res["accepted"], res["evl"] = state["accepted"], state["evl"]
+    res["final_world"] = caller_world_state(world)
+    res["cmd"] = "sess " + " ".join(toks)
+    return res
+
+
+def leak_kind(r, i):
+    """stable kind of 'a chunk of another point format was accepted' (one kind per way the format differs for the near misses)"""
+    nm = r.get("near_miss")
+    if nm:
+        return f"foreign-format chunk not refused: same id and record size, other {nm.split(' (')[0]}"
+    how = r["desc"].get("F3", "")
+    if i < len(r.get("addrs", [])) and r["addrs"][i] == 3 and how in ("elements-same-width", "type-same-width", "description", "scaling", "name", "order"):
+        return "foreign-format chunk not refused: same id and record size, other " + {"elements-same-width": "element count", "type-same-width": "element type",
+                                                                                      "description": "description", "scaling": "scaling", "name": "name", "order": "order of the extra dimensions"}[how]
+    return "chunk of another point format / after finish not refused (aliasing session)"
